@@ -499,7 +499,7 @@ def run(ctx):
     allp["K0"] = P
     allp["K3"] = P3
     ctx.guard("compress-eq", "sha256", lambda: got3.append(sha2eq.check_sha256(ctx, allp, thorough=(ctx.tier == "thorough"))))
-    want3 = 6 + (2 if ctx.tier == "thorough" else 0)
+    want3 = 7 + (2 if ctx.tier == "thorough" else 0)
     ctx.check(got3 == [want3], "floor", "compress-eq", "%d SHA-256 block-function runs equal the FIPS 180-4 compression function as value graphs" % want3, "only %s SHA-256 comparisons ran (expected %d)" % (got3, want3), key="floor:compress-eq")
     got4 = []
     ctx.guard("compress-eq", "sha512/sha1/ripemd160", lambda: got4.append(sha2eq.check_other(ctx, allp)))
